@@ -5,7 +5,9 @@
  * a kept value whose kind the filter does not admit stays null (allowArray/allowObject/allowValue). */
 #include "vh.h"
 #include "filt.h"
+#ifdef CUT_COLL_CLEAR
 void CUT_COLL_CLEAR(struct S_AJ__detail__CollectionData* c, struct S_AJ__detail__ResourceManager* rm) { VASSERT(0, "CollectionData::clear is not reached while a filter document is built from scalars"); }
+#endif
 /* model of a filter node: 0 null/absent, 1 false, 2 true, 3 number, 4 {} , 5 [], >=10 see below */
 enum { N_NULL, N_FALSE, N_TRUE, N_NUM, N_EMPTYOBJ, N_EMPTYARR, N_OBJ_B_TRUE /* {"b":true} */, N_OBJ_A_TRUE /* {"a":true} */, N_ARR_TRUE /* [true] */, N_ROOT };
 static unsigned node_bits(int n) {   /* allow | allowArray<<1 | allowObject<<2 | allowValue<<3 */
